@@ -360,6 +360,7 @@ def run(chk):
     from rules import c17_boot
     c17_boot.run(chk)
     _noassert_rule(chk, prog)
+    _seenpair_rule(chk, prog)
 
 
 UNBOUNDED_CSTR = ("strchr", "strrchr", "strlen", "strcmp", "strstr", "strcpy", "strcat", "strdup", "strpbrk", "strspn", "strcspn",
@@ -446,4 +447,39 @@ def _noassert_rule(chk, prog):
                     chk.violation(rule, tun, fn.name, "assert:" + c.text()[:30].replace(" ", ""), x.loc,
                                   "`janet_assert(%s, ...)` in %s tests a value computed from the call's arguments: when it fails the "
                                   "process aborts and no `try` can intercept it" % (c.text()[:60], fn.name))
+    chk.floor(rule, 1, n)
+
+
+def _seenpair_rule(chk, prog):
+    """The pretty printer recognises cycles by a table of the containers it is currently inside: entered on the way
+    in, removed on the way out.  A path that returns without the removal leaves an acyclic, merely SHARED container
+    marked: its second occurrence is printed as <cycle N>, and the numbers of real cycle markers shift."""
+    rule = "C17-SEENPAIR"
+    chk.rule(rule, "janet_pretty_one removes a container from its `seen` table on every path on which it entered it")
+    fn = prog.need_func("janet_pretty_one", "pp.c")
+    chk.analysed(fn)
+
+    def seen_call(x, name):
+        return x.k == "call" and x.callee == name and x.args and any(y.k == "mem" and y.field == "seen" for y in x.args[0].walk())
+
+    def transfer(st, x):
+        if seen_call(x, "janet_table_put"):
+            return st | {"in"}
+        if seen_call(x, "janet_table_remove"):
+            return st - {"in"}
+        return st
+    IN, OUT, T = flow.forward_paths(fn, frozenset(), transfer)
+    n = 0
+    for b, kind in flow.exits(fn):
+        if kind != "return" or b.id not in OUT:
+            continue
+        n += 1
+        chk.instance(rule)
+        if any("in" in ps for ps in OUT[b.id]):
+            where = b.term or (b.elems[-1] if b.elems else None)
+            chk.violation(rule, "pp.c", "janet_pretty_one", "return-while-seen", where.loc if where is not None else fn.loc,
+                          "janet_pretty_one can return with the container still entered in S->seen: a value that merely occurs twice "
+                          "is then printed as a cycle the second time ((string/format \"%.2q\" (let [x @[1 2]] @[x x])))")
+        else:
+            chk.ok(rule, "janet_pretty_one: this return leaves nothing behind in S->seen")
     chk.floor(rule, 1, n)
